@@ -316,6 +316,7 @@ def corpus():
                   "prev_pilot": 0, "rate": 0, "max_override": None},
                  {"session": "sess-2", "station": "st-2", "arrival": 3, "departure": 5, "est": 5, "requested": 30, "delivered": 0,
                   "prev_pilot": 0, "rate": 0, "max_override": None}]}]}
+    # f6 also lives in harness/corpus/C07/f6_session_id_ne_station_id.json (regression entry)
     return [f6, swap, mixed]
 
 
